@@ -911,6 +911,33 @@ func (p *Parser) ifStmt() (*IfStmt, *ParseError) {
 	}, nil
 }
 
+// forHeaderStatement parses the init (allowDecl) or update clause of a for
+// loop, without its trailing semicolon. WGSL allows only a variable or value
+// declaration (init only), an assignment, an increment / decrement or a function
+// call there; control-flow statements and blocks are rejected.
+func (p *Parser) forHeaderStatement(allowDecl bool) (Stmt, *ParseError) {
+	tok := p.peek()
+	switch tok.Kind {
+	case TokenReturn, TokenIf, TokenFor, TokenWhile, TokenLoop, TokenBreak, TokenContinue,
+		TokenDiscard, TokenSwitch, TokenConstAssert, TokenLeftBrace:
+		return nil, &ParseError{
+			Message: fmt.Sprintf("unexpected token %s in for loop header", tok.Kind),
+			Token:   tok,
+		}
+	case TokenVar, TokenLet, TokenConst:
+		if !allowDecl {
+			return nil, &ParseError{
+				Message: fmt.Sprintf("unexpected token %s in for loop update", tok.Kind),
+				Token:   tok,
+			}
+		}
+	}
+	p.inForHeader = true
+	s, err := p.statement()
+	p.inForHeader = false
+	return s, err
+}
+
 // forStmt parses a for statement.
 func (p *Parser) forStmt() (*ForStmt, *ParseError) {
 	start := p.advance() // consume 'for'
@@ -922,9 +949,7 @@ func (p *Parser) forStmt() (*ForStmt, *ParseError) {
 	// Init — parsed without trailing semicolon (for-loop uses ; as separator)
 	var init Stmt
 	if !p.check(TokenSemicolon) {
-		p.inForHeader = true
-		s, err := p.statement()
-		p.inForHeader = false
+		s, err := p.forHeaderStatement(true)
 		if err != nil {
 			return nil, err
 		}
@@ -950,9 +975,7 @@ func (p *Parser) forStmt() (*ForStmt, *ParseError) {
 	// Update — parsed without trailing semicolon (for-loop ends with ))
 	var update Stmt
 	if !p.check(TokenRightParen) {
-		p.inForHeader = true
-		s, err := p.statement()
-		p.inForHeader = false
+		s, err := p.forHeaderStatement(false)
 		if err != nil {
 			return nil, err
 		}
